@@ -148,6 +148,17 @@ structure Graph where
   `0` never (code as first found), `1` always (cylc-flow ec8c5af), `2` unless the proxy is a finished and
   complete instance that `spawn_task` will not spawn (repair of finding `queued-row-survives-removal`) -/
   rowInsertMode : Nat := 0
+  /-- behaviour flags (probed from the live code), all `false` = code as first found:
+  `qotSkipsPrepped`: `queue_or_trigger` returns early for a proxy already waiting on job preparation (6e65a44);
+  `releaseQueueIfReady`: `release_held_active_task` queues through `queue_if_ready` (not a manual proxy) (e8480f1);
+  `rmFlushFirst` / `rmFlushEach`: `_remove_matched_tasks` writes the DB queue before the first id / after the
+  history of each id was erased; `rmEraseUnmatched`: an active proxy in none of the given flows no longer
+  ends the handling of its id (downstream prerequisites and DB history are still dealt with) (f48c598, 472081b) -/
+  qotSkipsPrepped : Bool := false
+  releaseQueueIfReady : Bool := false
+  rmFlushFirst : Bool := false
+  rmFlushEach : Bool := false
+  rmEraseUnmatched : Bool := false
   deriving Repr, Inhabited
 
 /-- number of instances + 2: bounds the `spawn_task` ↔ `spawn_on_all_outputs` recursion -/
@@ -710,11 +721,12 @@ def holdActive (s : State) (x : Proxy) : State :=
   else { s with tasksToHold := s.tasksToHold ++ [(x.name, x.pt)] }
 
 /-- `release_held_active_task` on a pooled proxy -/
-def releaseHeldActive (s : State) (x : Proxy) : State :=
+def releaseHeldActive (s : State) (x : Proxy) (qir : Bool := false) : State :=
   let s :=
     if x.held then
       let y := x.reset (held := some false)
-      let y := if !y.runahead && y.isReadyToRun then y.reset (queued := some true) else y
+      -- (`qir`: through `queue_if_ready`, which leaves a manually triggered proxy alone)
+      let y := if !y.runahead && y.isReadyToRun && !(qir && y.manual) then y.reset (queued := some true) else y
       s.put y
     else s
   { s with tasksToHold := s.tasksToHold.filter (· != (x.name, x.pt)) }
@@ -763,7 +775,7 @@ def releaseAndSubmit (s : State) : State :=
 
 /-- `remove` -/
 def remove (g : Graph) (s : State) (x : Proxy) : State :=
-  let s := releaseHeldActive s x
+  let s := releaseHeldActive s x g.releaseQueueIfReady
   let x := (s.get? x.pt x.name).getD x
   let s := if !x.flows.isEmpty && x.runahead then spawnNextParentless g s x else s
   if (s.get? x.pt x.name).isNone then s else
@@ -1122,18 +1134,18 @@ def holdTasks (s : State) (ids : List (Int × String)) : State :=
               else { st with tasksToHold := st.tasksToHold ++ [(k.2, k.1)] }) s
 
 /-- `release_held_tasks`: only ids currently in `tasks_to_hold` are matched -/
-def releaseTasks (s : State) (ids : List (Int × String)) : State :=
+def releaseTasks (s : State) (ids : List (Int × String)) (qir : Bool := false) : State :=
   ids.foldl (fun st k =>
     if !st.tasksToHold.contains (k.2, k.1) then st else
     match st.get? k.1 k.2 with
-    | some y => releaseHeldActive st y
+    | some y => releaseHeldActive st y qir
     | none => { st with tasksToHold := st.tasksToHold.filter (· != (k.2, k.1)) }) s
 
 /-- `release_hold_point` -/
-def releaseHoldPoint (s : State) : State :=
+def releaseHoldPoint (s : State) (qir : Bool := false) : State :=
   let s := { s with holdPoint := none }
   let s := s.pool.foldl (fun st x => match st.get? x.pt x.name with
-    | some y => releaseHeldActive st y | none => st) s
+    | some y => releaseHeldActive st y qir | none => st) s
   { s with tasksToHold := [] }
 
 /-- clean restart from the database written at shutdown (`load_db_task_pool_for_restart`, `configure`) -/
@@ -1208,6 +1220,10 @@ def queueOrTrigger (s : State) (x : Proxy) : State :=
   let s := s.put (triggeredProxy x)
   if s.toTrigger.contains (x.pt, x.name) then s else { s with toTrigger := s.toTrigger ++ [(x.pt, x.name)] }
 
+/-- `queue_or_trigger` with the early return for a proxy that is already waiting on job preparation (`skip`) -/
+def queueOrTriggerG (skip : Bool) (s : State) (x : Proxy) : State :=
+  if skip && x.wjp then s.put { x with manual := true } else queueOrTrigger s x
+
 def instOf (g : Graph) (k : Int × String) : Option InstDef := (g.task? k.2).bind (·.inst? k.1)
 
 /-- all graph children of an instance (over all outputs), without duplicates -/
@@ -1262,16 +1278,24 @@ def removeDownstream (g : Graph) (s : State) (ids : List (Int × String)) (k : I
       let st := remove g st c
       ((removeTaskFromFlows st c.name c.pt fr).1, true)) (s, false)
   let (s, dbRemoved) := removeTaskFromFlows s k.2 k.1 flows
+  let s := if g.rmFlushEach then dbFlush s else s
   (s, any || !dbRemoved.isEmpty)
 
 /-- `_remove_matched_tasks(ids, flow_nums)` -/
 def removeMatched (g : Graph) (s : State) (ids : List (Int × String)) (flows : List Nat) : State :=
+  let s := if g.rmFlushFirst then dbFlush s else s
   let (s, toKill, any) := ids.foldl (fun (acc : State × List (Int × String) × Bool) k =>
     let (st, toKill, any) := acc
     match st.get? k.1 k.2 with
     | some x =>
       let fr := x.matchFlows flows
-      if fr.isEmpty then acc else           -- not removable: nothing at all happens for this id
+      if fr.isEmpty then
+        -- not removable (code as first found: nothing at all happens for this id)
+        if g.rmEraseUnmatched then
+          let (st, ch) := removeDownstream g st ids k flows
+          (st, toKill, any || ch)
+        else acc
+      else
       let (st, toKill) :=
         if fr == x.flows then
           let st := remove g st x
@@ -1323,7 +1347,7 @@ def trigActiveOne (g : Graph) (group : List (Int × String)) (flow : FlowSpec) (
       let x := { x with pre := x.pre.map Pre.setSatisfied, retryWait := false }
       let st := mergeFlows g (st.put x) x flowNums
       match st.get? k.1 k.2 with
-      | some x => (queueOrTrigger st x, toRemove, completed)
+      | some x => (queueOrTriggerG g.qotSkipsPrepped st x, toRemove, completed)
       | none => (st, toRemove, completed)
   | _, _ => acc
 
@@ -1361,7 +1385,7 @@ def respawnOne (g : Graph) (group : List (Int × String)) (completed : Completed
       if inFlow then st else
       if pooled then
         match st.get? k.1 k.2 with
-        | some y => queueOrTrigger st y
+        | some y => queueOrTriggerG g.qotSkipsPrepped st y
         | none => st
       else if !g.triggerUnpooled then st
       else
@@ -1386,7 +1410,7 @@ def forceTriggerGroup (g : Graph) (s : State) (group : List (Int × String)) (fl
     let s := removeMatched g s ids flowNums
     let s := { s with preStart := ids.foldl (fun acc k =>
         if k.1 < g.start && !acc.contains (k.2, k.1) then acc ++ [(k.2, k.1)] else acc) s.preStart }
-    dbFlush (releaseTasks s ids)
+    dbFlush (releaseTasks s ids g.releaseQueueIfReady)
   -- respawn the removed members with their off-group prerequisites satisfied; group-start ones are triggered
   let s := (orderBy h.sp (inactive ++ toRemove)).foldl (respawnOne g group completed flowNums wait) s
   (releaseRunahead g s).1
@@ -1434,9 +1458,9 @@ def step (g : Graph) (s : State) (op : Op) : State :=
       (processMessage g 4 s p n .internal sn (if ok then "submitted" else "submit-failed")).1
   | .msg p n sn text => { s with queue := s.queue ++ [⟨p, n, sn, text⟩] }
   | .hold ids => holdTasks s ids
-  | .release ids => releaseTasks s ids
+  | .release ids => releaseTasks s ids g.releaseQueueIfReady
   | .setHoldPoint p => setHoldPoint s p
-  | .releaseHoldPoint => releaseHoldPoint s
+  | .releaseHoldPoint => releaseHoldPoint s g.releaseQueueIfReady
   | .stop mode => { s with stopMode := some mode }
   | .stopPoint p => setStopPoint s p
   | .stopTask p n => { s with stopTask := some (p, n), stopTaskFinished := false }
